@@ -267,6 +267,9 @@ func TestC16(t *testing.T) {
 		}
 	}
 	ok := checkApiCorrespondence(t, m, st, "C16", Seed(), all, lines)
+	if len(st.Violations) == 0 {
+		c16Streams(t, st)
+	}
 	st.Set("evaluations", len(results))
 	tv := 0
 	if ok {
